@@ -116,6 +116,10 @@ def mk(items, like):
 
 
 def is_ws(eng, b):
+    if isinstance(b, Tok) and b.kind in ('display', 'debug'):
+        # assumption (listed in the evidence of specs that format errors): the Display/Debug text of an opaque value such as
+        # io::Error neither starts nor ends with white space
+        return False
     for c in (32, 9, 10, 13, 11, 12):
         if byte_is(eng, b, c):
             return True
